@@ -265,6 +265,10 @@ def gen_pinn_reject(rng):
         c["layers"] = _arch(rng, nin, 1, 1, final_act=False)
         c["out_t"] = "id"
         c["shared"] = [{"range": [0, 1]}, {"index": 0}]
+        if rng.random() < 0.5:
+            # ... unless the output transform broadcasts the 0-d output against a length-one parameter
+            c["eq_params"] = [e for e in c["eq_params"] if e[0] != "gamma"] + [["gamma", [_dy_nz(rng, -2, 2, 2)]]]
+            c["out_t"] = {"a": {"eq": "gamma"}, "b": {"const": _dy(rng, -1, 1, 2)}}
     return c
 
 
@@ -415,18 +419,19 @@ QUICK_SPINN = [
 def gen_cases(rng, tier):
     cases = []
     if tier == "quick":
-        n_pinn, n_hyper, n_rej = 60, 36, 24
+        n_pinn, n_hyper, n_rej = 120, 66, 48
         for combo in QUICK_SPINN:
-            cases.append(gen_spinn(rng, combo))
-            cases.append(gen_spinn(rng, combo))
+            for _ in range(3):
+                cases.append(gen_spinn(rng, combo))
     else:
-        n_pinn, n_hyper, n_rej = 900, 500, 240
+        n_pinn, n_hyper, n_rej = 2700, 1500, 900
         for d in (1, 2, 3):
             for r in (1, 2, 3, 4):
                 for m in (1, 2, 3):
                     for n in (1, 2, 3, 4):
-                        cases.append(gen_spinn(rng, (d, r, m, n, rng.randint(1, 2), rng.random() < 0.25)))
-        for _ in range(60):
+                        for _ in range(2):
+                            cases.append(gen_spinn(rng, (d, r, m, n, rng.randint(1, 2), rng.random() < 0.25)))
+        for _ in range(120):
             cases.append(gen_spinn(rng))
     for i in range(n_pinn):
         cases.append(gen_pinn(rng, ["ODE", "statio_PDE", "nonstatio_PDE"][i % 3]))
@@ -735,6 +740,7 @@ def lean_request(case, obs):
 
 def judge(case, obs, a):
     if not a["exact_ok"]:
+        obs["_inexact"] = True   # seen by `tags` / `nontrivial` (called after `judge`)
         return {"status": "ok", "clause": None, "skipped": "inexact"}
     if not a["holds"]:
         return {"status": "violation", "clause": a["clause"], "model_outs": a.get("model_outs")}
@@ -752,6 +758,8 @@ def _values(obs):
 
 
 def nontrivial(case, obs):
+    if obs.get("_inexact"):
+        return False
     if not any("out" in o for o in _values(obs)):
         return False
     if case["kind"] == "hyper":
@@ -771,8 +779,14 @@ def _tkind(d):
 
 def tags(case, obs):
     out = [f"kind={case['kind']}", f"eq_type={case['eq_type']}"]
+    if obs.get("_inexact"):
+        out.append("skipped_inexact(magnitude guard)")
     if obs.get("create_error"):
         out.append(f"create_error={obs['create_error']}")
+        if case["kind"] == "hyper" and obs["create_error"] == "type_error":
+            # create_HYPERPINN cannot build a hyper-network whose eqx_list starts or ends with an activation
+            # (it concatenates the bare 1-tuple); mirrored by the model (`hyperArch`), reported as a finding
+            out.append("create_HYPERPINN_rejects_activation_at_either_end_of_hyper_list")
     for o in _values(obs):
         if "error" in o:
             out.append(f"call_error={o['error']}")
